@@ -52,8 +52,8 @@ Theorem C16_deriv_fuel : forall k g fuel, (deriv_fuel k g <= fuel)%nat -> deriv_
 Proof. exact deriv_spec. Qed.
 
 (* [deriv] satisfies the recursion of FunctionGF/SumGF/ProductGF.derivative literally *)
-Theorem C16_deriv_equations : forall k c a b,
-  deriv k (Fn c) = Fn (dcoef c k) /\
+Theorem C16_deriv_equations : forall k c m a b,
+  deriv k (Fn c m) = Fn (dcoef c k) m /\
   deriv k (Sum a b) = Sum (deriv k a) (deriv k b) /\
   deriv 0 (Prod a b) = Prod a b /\
   deriv (S k) (Prod a b) = deriv k (Sum (Prod (deriv 1 a) b) (Prod a (deriv 1 b))).
@@ -69,30 +69,39 @@ Proof. exact coeff_deriv_1. Qed.
 
 (* ---- evaluation *)
 
-(* leaves of degree <= 300: evaluate() is the value of the polynomial with the tree's coefficients
-   (N: any bound on its degree; the coefficients above degb are 0) *)
-Theorem C16_eval : forall g x, leaves_vanish max_term g ->
-  forall N, (degb max_term g <= N)%nat -> eval g x == sumn (S N) (fun i => coeff g i * qpow x i).
-Proof. intros g x H N HN. exact (eval_to_poly max_term max_term g x H (le_n _) N HN). Qed.
+(* every leaf's coefficients end by its own _maxTerm (always so for coefficient lists, whose _maxTerm
+   is their length; degree <= 300 for coefficient functions): evaluate() is the value of the polynomial
+   with the tree's coefficients (N: any bound on its degree; the coefficients above degb are 0) *)
+Theorem C16_eval : forall g x, leaves_within (fun m => m) g ->
+  forall N, (degb (fun m => m) g <= N)%nat -> eval g x == sumn (S N) (fun i => coeff g i * qpow x i).
+Proof. intros g x H N HN. exact (eval_cut_poly (fun m => m) g x H N HN). Qed.
 
-Theorem C16_coeff_above_degree : forall g, leaves_vanish max_term g -> forall i, (degb max_term g < i)%nat -> coeff g i == 0.
-Proof. exact (coeff_vanish max_term). Qed.
+Theorem C16_coeff_above_degree : forall g, leaves_within (fun m => m) g ->
+  forall i, (degb (fun m => m) g < i)%nat -> coeff g i == 0.
+Proof. exact (coeff_vanish (fun m => m)). Qed.
 
-Theorem C16_eval_deriv : forall k g x, leaves_vanish max_term g ->
-  forall N, (degb max_term g <= N)%nat ->
+Theorem C16_eval_deriv : forall k g x, leaves_within (fun m => m) g ->
+  forall N, (degb (fun m => m) g <= N)%nat ->
   eval (deriv k g) x == sumn (S N) (fun i => qn (fact (i + k)) / qn (fact i) * coeff g (i + k)%nat * qpow x i).
 Proof.
-  intros k g x H N HN. unfold eval. rewrite (eval_deriv max_term max_term k g x H (le_n _) N HN).
+  intros k g x H N HN. unfold eval. rewrite (eval_deriv (fun m => m) k g x H N HN).
   apply sumn_ext. intros i _. rewrite ffq_quot. reflexivity.
 Qed.
 
-(* scaling and differentiating keep the leaves' degree within reach of the loop *)
-Theorem C16_closure : forall d n k g, leaves_vanish d g ->
-  leaves_vanish d (scale n g) /\ leaves_vanish d (deriv k g) /\ (degb d (deriv k g) <= degb d g)%nat /\ degb d (scale n g) = degb d g.
+(* scaling and differentiating keep every leaf within its loop and do not raise the degree *)
+Theorem C16_closure : forall cut n k g, leaves_within cut g ->
+  leaves_within cut (scale n g) /\ leaves_within cut (deriv k g) /\
+  (degb cut (deriv k g) <= degb cut g)%nat /\ degb cut (scale n g) = degb cut g.
 Proof.
-  intros d n k g H. destruct (deriv_vanish_degb d k g H) as [V D].
-  split; [apply scale_vanish; exact H | split; [exact V | split; [exact D | apply scale_degb]]].
+  intros cut n k g H. destruct (deriv_within_degb cut k g H) as [V D].
+  split; [apply scale_within; exact H | split; [exact V | split; [exact D | apply scale_degb]]].
 Qed.
+
+(* the loops may stop anywhere past the leaves' degrees (e.g. all at term 300, as the tree did before
+   fix F12, when the leaves have degree <= 300) *)
+Theorem C16_eval_cutoff : forall cut cut' g x, leaves_within cut g -> leaves_within cut' g ->
+  eval_cut cut g x == eval_cut cut' g x.
+Proof. exact eval_cut_indep. Qed.
 
 (* ---- whole programs: for EVERY expression over the operators *)
 
@@ -105,26 +114,30 @@ Proof. exact build_None. Qed.
 Theorem C16_expr_coeff : forall e g, build e = Some g -> forall i, coeff g i == sem e i.
 Proof. exact build_coeff. Qed.
 
-(* gf(x) = the value of that polynomial, for coefficient lists of at most 301 entries *)
-Theorem C16_expr_eval : forall e g x, build e = Some g -> (max_len e <= S max_term)%nat ->
-  forall N, (degb max_term g <= N)%nat -> eval g x == sumn (S N) (fun i => sem e i * qpow x i).
+(* gf(x) = the value of that polynomial (coefficient lists of any length; coefficient functions
+   that end by term 300) *)
+Theorem C16_expr_eval : forall e g x, build e = Some g -> funcs_short e ->
+  forall N, (degb (fun m => m) g <= N)%nat -> eval g x == sumn (S N) (fun i => sem e i * qpow x i).
 Proof. exact build_eval. Qed.
 
-(* tie B sums the leaves only as far as the longest coefficient list: that is [eval] *)
+(* tie B sums every leaf as far as the longest coefficient list: that is [eval], and for lists of at
+   most 301 entries it is also the all-leaves-to-300 evaluation of the tree before fix F12 *)
 Theorem C16_tie_eval_is_eval : forall e g x, build e = Some g ->
-  eval_to (Nat.min (max_len e) max_term) g x == eval g x.
-Proof. exact tie_eval_is_eval. Qed.
+  (funcs_short e -> eval_to (max_len e) g x == eval g x) /\
+  ((max_len e <= S max_term)%nat -> eval_to (max_len e) g x == eval_to max_term g x).
+Proof. intros e g x Hb. split; [apply tie_eval_is_eval | apply tie_eval_is_eval_300]; exact Hb. Qed.
 
-(* ---- non-vacuity: (1 + 2x) * ((1/2 - 3x^2) + x), its second derivative, values at 2 *)
+(* ---- non-vacuity: (1 + 2x) * ((1/2 - 3x^2) + x), its second derivative, values at 2/3 *)
 Example C16_example :
-  let e := EMul (ECoeffs [1; 2 # 1]) (EAdd (ECoeffs [1 # 2; 0; -3 # 1]) (ECoeffs [0; 1])) in
-  exists g, build e = Some g /\ leaves_vanish max_term g /\ (max_len e <= S max_term)%nat /\ degb max_term g = 600%nat /\
+  let e := EMul (ECoeffs [1; 2 # 1]) (EAdd (ECoeffs [1 # 2; 0; -3 # 1]) (EFunc [0; 1])) in
+  exists g, build e = Some g /\ funcs_short e /\ leaves_within (fun m => m) g /\ degb (fun m => m) g = 302%nat /\
     list_eqb Qeq_bool (map (coeff g) [0; 1; 2; 3; 4]%nat) [1 # 2; 2 # 1; -1 # 1; -6 # 1; 0] = true /\
-    coeff (deriv 2 g) 1 == -36 # 1 /\ eval g (2 # 1) == -95 # 2 /\ eval (deriv 2 g) (2 # 1) == -74 # 1.
+    coeff (deriv 2 g) 1 == -36 # 1 /\ eval_to (max_len e) g (2 # 3) == -7 # 18 /\ eval_to (max_len e) (deriv 2 g) (2 # 3) == -26 # 1.
 Proof.
   cbv zeta. eexists. split; [reflexivity|]. split; [|split; [|split; [|split]]].
-  - split; [|split]; apply from_coeffs_vanish; simpl; unfold max_term; lia.
-  - simpl; unfold max_term; lia.
+  - simpl. unfold max_term. lia.
+  - refine (build_within_own (EMul (ECoeffs [1; 2 # 1]) (EAdd (ECoeffs [1 # 2; 0; -3 # 1]) (EFunc [0; 1]))) _ _ eq_refl).
+    simpl. unfold max_term. lia.
   - reflexivity.
   - vm_compute. reflexivity.
   - split; [|split]; vm_compute; reflexivity.
